@@ -237,7 +237,7 @@ class BlockNode(Node):
         except LiquidError as err:
             # The block's nodes come from the template that defines the block,
             # which is not the base template being rendered.
-            if not err.template_name:
+            if not err.template_name and err.is_located_in(stack_item.token):
                 err.template_name = stack_item.source_name
             raise
 
@@ -295,7 +295,7 @@ class BlockNode(Node):
         try:
             return await stack_item.block.block.render_async(ctx, buffer)
         except LiquidError as err:
-            if not err.template_name:
+            if not err.template_name and err.is_located_in(stack_item.token):
                 err.template_name = stack_item.source_name
             raise
 
@@ -420,7 +420,7 @@ class BlockDrop(Mapping[str, object]):
             try:
                 self.parent.block.block.render(self.context, buf)
             except LiquidError as err:
-                if not err.template_name:
+                if not err.template_name and err.is_located_in(self.parent.token):
                     err.template_name = self.parent.source_name
                 raise
 
